@@ -1,6 +1,7 @@
 #!/bin/sh
 # run the thorough tier of the given checks on the unchanged tree (timing + false-alarm test)
 cd "$(dirname "$0")/.."
+[ -n "$VP_RUN_REPO" ] && export VERIF_REPO="$VP_RUN_REPO"
 ./setup.sh >/dev/null 2>&1
 for c in "$@"; do
   /usr/bin/time -f "$c wall=%es maxrss=%MKB" ./run.py $c thorough 2>&1 | grep -E "^(VIOLATION|KNOWN|ERROR|  |C[0-9][0-9] thorough|C[0-9][0-9] wall)" | cut -c1-300
